@@ -3147,6 +3147,8 @@ impl Collection {
         #[allow(clippy::mutable_key_type)]
         let mut btree_updated: FxHashMap<&BTree, (Cow<FieldValue>, Cow<FieldValue>)> =
             FxHashMap::default();
+        // The index that refused the update, if one did (see below).
+        let mut btree_refused: Option<(&BTree, (Cow<FieldValue>, Cow<FieldValue>))> = None;
         #[allow(clippy::mutable_key_type)]
         let mut bm25_inserted: FxHashMap<&BM25, (u64, Cow<str>)> = FxHashMap::default();
         #[allow(clippy::mutable_key_type)]
@@ -3170,7 +3172,13 @@ impl Collection {
                         .btree_index_value(index, &doc)
                         .unwrap_or(Cow::Owned(FieldValue::Null));
 
-                    index.update(id, &old_value, &new_value, now_ms)?;
+                    if let Err(err) = index.update(id, &old_value, &new_value, now_ms) {
+                        // A refused update of an array or map key set may
+                        // already have applied some of its new values; only
+                        // the rollback takes them back.
+                        btree_refused = Some((index, (old_value, new_value)));
+                        return Err(err);
+                    }
                     btree_updated.insert(index, (old_value, new_value));
                 }
             }
@@ -3220,6 +3228,13 @@ impl Collection {
             }
             for (k, v) in hnsw_inserted {
                 k.remove(v, now_ms);
+            }
+
+            // Best effort: whatever made the index refuse the forward
+            // update (an unindexable value) may refuse this one as well, and
+            // then nothing had been applied either.
+            if let Some((k, v)) = btree_refused {
+                let _ = k.update(id, &v.1, &v.0, now_ms);
             }
 
             for (k, v) in btree_updated {
